@@ -99,9 +99,10 @@ func c06String(r *Run, s []byte) {
 	r.count("string/accepted")
 	r.eval("s|"+string(s), true)
 	// the parse-level K3 guard, answered by both sides for every accepted text whose reading validates
-	k3hit, k3ok := c06ParseK3(s)
+	k3hit, k3joins, k3ok := c06ParseJoins(s)
 	if k3ok {
 		r.op("k3.parse " + encBytes(s))
+		c06ParsedJoins(r, line, k3joins)
 		if k3hit {
 			r.count("string/k3.parse=1")
 		}
@@ -249,6 +250,7 @@ func propC06(r *Run) {
 	}
 	c06ClosureScope(r)
 	c06EmptySpanScope(r)
+	c06InvertedScope(r)
 	// all strings up to a length over the location alphabet
 	maxLen := 4
 	if r.tier == "thorough" {
